@@ -10,6 +10,7 @@
     attached to no file.
 -/
 import Rva.Model.Pipeline
+import Rva.Proofs.FirstLabel
 namespace Rva
 
 theorem addName_mem (s : List (W String)) (w : W String) (n : String) :
@@ -49,111 +50,21 @@ theorem no_undefined_no_error (nodes : List Node) (p : Option (List (W String)))
     (h : undefinedNames nodes p = []) : buildCfg nodes p = buildNodes nodes p := by
   unfold buildCfg; simp [h]
 
-theorem minLabel_foldl (ls : List (W String)) : ∀ (acc : Option (W String)),
-    (∀ m, acc = some m → True) →
-    ∃ m, ls.foldl minLabelStep acc = some m ∨ (acc = none ∧ ls = []) := by
-  intro acc _
-  induction ls generalizing acc with
-  | nil => cases acc with
-    | none => exact ⟨default, Or.inr ⟨rfl, rfl⟩⟩
-    | some m => exact ⟨m, Or.inl rfl⟩
-  | cons l rest ih =>
-    simp only [List.foldl_cons]
-    obtain ⟨m, h⟩ := ih (minLabelStep acc l) (fun _ _ => trivial)
-    rcases h with h | ⟨h, _⟩
-    · exact ⟨m, Or.inl h⟩
-    · exfalso
-      unfold minLabelStep at h
-      cases acc with
-      | none => simp at h
-      | some a => simp only [] at h; split at h <;> simp at h
-
-/-- the chosen label is one of the list, and no label of the list has a smaller name -/
-theorem minLabel_spec (ls : List (W String)) (hne : ls ≠ []) :
-    ∃ m, minLabel ls = some m ∧ m ∈ ls ∧ ∀ x ∈ ls, ¬ x.val < m.val := by
-  unfold minLabel
-  suffices ∀ (done rest : List (W String)) (acc : Option (W String)),
-      (done = [] → acc = none) →
-      (∀ a, acc = some a → a ∈ done ∧ ∀ x ∈ done, ¬ x.val < a.val) →
-      (done ≠ [] → acc ≠ none) →
-      done ++ rest ≠ [] →
-      ∃ m, rest.foldl minLabelStep acc = some m ∧ m ∈ done ++ rest ∧ ∀ x ∈ done ++ rest, ¬ x.val < m.val by
-    have := this [] ls none (fun _ => rfl) (fun a h => by simp at h) (fun h => absurd rfl h) (by simpa using hne)
-    simpa using this
-  intro done rest
-  induction rest generalizing done with
-  | nil =>
-    intro acc h0 hinv hsome hne'
-    simp only [List.append_nil] at hne' ⊢
-    cases acc with
-    | none => exact absurd rfl (hsome hne')
-    | some a => exact ⟨a, rfl, (hinv a rfl).1, (hinv a rfl).2⟩
-  | cons l rest ih =>
-    intro acc h0 hinv hsome _
-    simp only [List.foldl_cons]
-    have hstep := ih (done ++ [l]) (minLabelStep acc l) (by simp) ?_ (by
-      intro _
-      unfold minLabelStep
-      cases acc with
-      | none => simp
-      | some a => simp only []; split <;> simp) (by simp)
-    · simpa [List.append_assoc] using hstep
-    · intro a ha
-      unfold minLabelStep at ha
-      cases acc with
-      | none =>
-        simp only [Option.some.injEq] at ha
-        subst ha
-        have hd : done = [] := by
-          cases hdn : done with
-          | nil => rfl
-          | cons d ds => exact absurd rfl (hsome (by rw [hdn]; simp))
-        subst hd
-        refine ⟨by simp, ?_⟩
-        intro x hx
-        simp only [List.nil_append, List.mem_singleton] at hx
-        subst hx
-        exact String.lt_irrefl _
-      | some m =>
-        simp only [] at ha
-        obtain ⟨hm, hmin⟩ := hinv m rfl
-        split at ha
-        · rename_i hlt
-          simp only [Option.some.injEq] at ha
-          subst ha
-          refine ⟨by simp, ?_⟩
-          intro x hx
-          rcases List.mem_append.mp hx with hx | hx
-          · intro hxl
-            exact hmin x hx (String.lt_trans hxl hlt)
-          · simp only [List.mem_singleton] at hx
-            subst hx
-            exact String.lt_irrefl _
-        · rename_i hnlt
-          simp only [Option.some.injEq] at ha
-          subst ha
-          refine ⟨List.mem_append_left _ hm, ?_⟩
-          intro x hx
-          rcases List.mem_append.mp hx with hx | hx
-          · exact hmin x hx
-          · simp only [List.mem_singleton] at hx
-            subst hx
-            exact hnlt
-
 /-- The diagnostic for an undefined or duplicate label is located on that label's token; with
-    several undefined labels, on the one with the smallest name (the first name in the title): a
-    function of the set of labels, not of any iteration order. -/
+    several undefined labels, on the one written first (no other comes before it by offsets, the
+    name deciding only between equal offsets in different files): a function of the set of labels,
+    not of any iteration order, and the same instruction whatever the labels are called. -/
 theorem cfgErrDiag_located :
     (∀ (l : W String), (cfgErrDiag (.duplicateLabel l)).file = l.tok.file ∧
         (cfgErrDiag (.duplicateLabel l)).range = l.tok.range ∧
         (cfgErrDiag (.duplicateLabel l)).title = s!"Duplicate label: {l.val}") ∧
-    (∀ (ls : List (W String)), ls ≠ [] → ∃ m ∈ ls, (∀ x ∈ ls, ¬ x.val < m.val) ∧
+    (∀ (ls : List (W String)), ls ≠ [] → ∃ m ∈ ls, (∀ x ∈ ls, labelBefore x m = false) ∧
         (cfgErrDiag (.labelsNotDefined ls)).file = m.tok.file ∧
         (cfgErrDiag (.labelsNotDefined ls)).range = m.tok.range) ∧
     (cfgErrDiag .unexpectedError).file = nilFile := by
   refine ⟨fun l => ⟨rfl, rfl, rfl⟩, ?_, rfl⟩
   intro ls hne
-  obtain ⟨m, hm, hmem, hmin⟩ := minLabel_spec ls hne
+  obtain ⟨m, hm, hmem, hmin⟩ := firstLabel_spec ls hne
   refine ⟨m, hmem, hmin, ?_, ?_⟩ <;> simp [cfgErrDiag, hm]
 
 
